@@ -145,6 +145,11 @@ pub trait Check: Sync {
     fn run(&self, ch: &mut Chooser, tier: Tier) -> RunOutcome;
     /// how many runs in this tier
     fn budget(&self, tier: Tier) -> u64;
+    /// Optional oracle over the whole batch of this family (e.g. a percentile of a measured
+    /// quantity): gets the probes summed over all runs of the family and the number of runs.
+    fn batch_oracle(&self, _probes: &BTreeMap<String, u64>, _runs: u64) -> Vec<Violation> {
+        Vec::new()
+    }
 }
 
 #[derive(Clone, Copy, Debug, PartialEq, Eq, Serialize, Deserialize)]
